@@ -17,6 +17,12 @@ func replayMore(rp *ev.Replay) *ev.Failure {
 		}
 		f, _ := oracleC12(&c)
 		return f
+	case "C18/wktjson":
+		var c wktJSONCase
+		if err := json.Unmarshal(rp.Case, &c); err != nil {
+			return ev.Failf("C18/replay", "bad case: %v", err)
+		}
+		return oracleC18WKT(&c)
 	case "C18/jcase":
 		var c JCase
 		if err := json.Unmarshal(rp.Case, &c); err != nil {
